@@ -404,6 +404,19 @@ def main(argv):
     finally:
         shutil.rmtree(workdir, ignore_errors=True)
 
+    # thorough tier: a sample of the cases re-evaluated inside Coq (vm_compute) against the extracted model's answers
+    if tier == 'thorough' and rows and coq_ok:
+        try:
+            import vmcross
+            nx, mism = vmcross.cross_check(ROOT, rows)
+            extra_cov['extraction_cross_check'] = {'cases_evaluated_in_coq': nx, 'mismatches': len(mism)}
+            for mm in mism[:2]:
+                path = write_replay(prop, 'obligation', {'property': prop, 'kind': 'broken-obligation', 'correspondence_problem': mm,
+                                    'explanation': 'the extracted OCaml model and the in-Coq evaluation of the same model function differ'})
+                violations.append((path, False, mm[:200]))
+        except Exception as e:
+            notes.append('extraction cross-check not run: %r' % (e,))
+
     known, fixed = load_known()
     knownset = {(p, k): txt for (p, k, txt) in known}
     counts = {'OK': 0, 'DIFF': 0, 'SPECFAIL': 0, 'KNOWN': 0, 'SKIP': 0}
